@@ -111,6 +111,9 @@ class Session:
         self.pool['W2'] = lentil.Wavefront(2.0 ** -7, tilt=[1e-4, -5e-5]) * self.pool['P1']
         self.pool['P3'] = lentil.Pupil(mask=(m != 0).astype(int), pixelscale=0.5, focal_length=4.0)
         # an image-plane element with a sampled OPD (a field stop with a phase error)
+        # a tilt element its owner keeps updating (a jitter loop), and a wavefront that went through it
+        self.pool['T1'] = lentil.Tilt(x=1e-4, y=-2e-4)
+        self.pool['W3'] = self.pool['W1'] * self.pool['T1']
         self.pool['I1'] = lentil.Image(amplitude=self.pool['A1'].copy(), opd=self.pool['O1'] * 2.0, mask=(m != 0).astype(int), pixelscale=0.5)
 
     # -- recording -----------------------------------------------------------------------------------
@@ -192,6 +195,9 @@ class Session:
             ('fit_tilt_copy', lambda: p['P1'].fit_tilt(inplace=False), ['P1'], ()),
             ('fit_tilt_inplace', lambda: p['P1'].fit_tilt(inplace=True), ['P1'], ()),
             ('plane_copy', lambda: p['P1'].copy(), ['P1'], ()),
+            ('multiply_tilt_element', lambda: p['W1'] * p['T1'], ['W1', 'T1'], (), 'W3'),
+            ('propagate_dft', lambda: l.propagate_dft(p['W3'], pixelscale=2.0 ** -6, shape=(4, 5), oversample=2), ['W3'], ('w3',)),
+            ('spectrum_to_unknown_unit', lambda: p['S2'].to('um', 'photlamm'), ['S2'], ()),
             # the caller goes on to EDIT the plane that fit_tilt(inplace=False) / copy() handed back: that is its own plane to edit
             ('fit_tilt_copy_then_edit', lambda: (lambda r: (setattr(r, 'opd', np.asarray(r.opd) * 0.0), setattr(r, 'amplitude', np.asarray(r.amplitude) * 2.0), 1)[-1])
              (p['P1'].fit_tilt(inplace=False)), ['P1'], ()),
@@ -260,6 +266,10 @@ class Session:
             np.random.seed(rng.randrange(2 ** 31))
         elif rng.random() < 0.3:
             np.random.uniform(size=rng.randint(1, 5))
+        if rng.random() < 0.1:
+            # the owner of the tilt element steers it somewhere else (its documented attributes)
+            nx = rng.choice((0.0, 5e-5, -3e-4))
+            self.caller('caller_update', ['T1'], lambda: (setattr(p['T1'], 'x', nx), setattr(p['T1'], 'y', 2 * nx)))
         if rng.random() < 0.1:
             # caller updates a plane attribute between calls (new OPD through the public setter)
             f = rng.choice((1.0, 2.0))
